@@ -9,10 +9,25 @@ pub struct Counting;
 static LIVE: AtomicUsize = AtomicUsize::new(0);
 static PEAK: AtomicUsize = AtomicUsize::new(0);
 
+thread_local! {
+    /// only the thread that runs the cases is accounted (the watchdog thread's
+    /// own bookkeeping must not show up as a leak or a release)
+    static TRACK: std::cell::Cell<bool> = const { std::cell::Cell::new(false) };
+}
+
+fn tracked() -> bool {
+    TRACK.try_with(|t| t.get()).unwrap_or(false)
+}
+
+/// Account the allocations of the calling thread from now on.
+pub fn track_this_thread() {
+    TRACK.with(|t| t.set(true));
+}
+
 unsafe impl GlobalAlloc for Counting {
     unsafe fn alloc(&self, l: Layout) -> *mut u8 {
         let p = System.alloc(l);
-        if !p.is_null() {
+        if !p.is_null() && tracked() {
             let now = LIVE.fetch_add(l.size(), Ordering::Relaxed) + l.size();
             PEAK.fetch_max(now, Ordering::Relaxed);
         }
@@ -20,7 +35,7 @@ unsafe impl GlobalAlloc for Counting {
     }
     unsafe fn alloc_zeroed(&self, l: Layout) -> *mut u8 {
         let p = System.alloc_zeroed(l);
-        if !p.is_null() {
+        if !p.is_null() && tracked() {
             let now = LIVE.fetch_add(l.size(), Ordering::Relaxed) + l.size();
             PEAK.fetch_max(now, Ordering::Relaxed);
         }
@@ -28,11 +43,13 @@ unsafe impl GlobalAlloc for Counting {
     }
     unsafe fn dealloc(&self, p: *mut u8, l: Layout) {
         System.dealloc(p, l);
-        LIVE.fetch_sub(l.size(), Ordering::Relaxed);
+        if tracked() {
+            LIVE.fetch_sub(l.size(), Ordering::Relaxed);
+        }
     }
     unsafe fn realloc(&self, p: *mut u8, l: Layout, new_size: usize) -> *mut u8 {
         let q = System.realloc(p, l, new_size);
-        if !q.is_null() {
+        if !q.is_null() && tracked() {
             if new_size >= l.size() {
                 let d = new_size - l.size();
                 let now = LIVE.fetch_add(d, Ordering::Relaxed) + d;
